@@ -790,3 +790,161 @@ pub fn cipher_check(a: &Args) -> Report {
   rep.traces = 1;
   rep
 }
+
+// ---------------------------------------------------------------------------
+/// `vh length-sweep --prop C01|C03|C04|C16 --max N` — one fixed behaviour of the model (t distinct
+/// reports of one group; two sub-threshold reports; two triples differing in their last byte)
+/// instantiated at EVERY length 0..N of measurement / epoch / associated data / message / coins.
+/// Byte strings of consecutive lengths are prefixes of one fixed random string, so strings of
+/// neighbouring lengths differ only by trailing bytes.
+pub fn length_sweep(a: &Args) -> Report {
+  let prop = a.str("prop", "C01");
+  let mut rep = Report::new(&format!("length-sweep-{prop}"));
+  let seed = a.u64("seed", 1);
+  let maxl = a.u64("max", 200) as usize;
+  let mut rng = rng_from(seed, 2718);
+  let base: Vec<u8> = (0..maxl + 8).map(|_| rng.gen()).collect();
+  let oprf = OprfServer::new(vec![0, 1, 2]).expect("oprf");
+  let mut seen_rnd: std::collections::HashMap<Vec<u8>, String> = std::collections::HashMap::new();
+  let mut seen_tag: std::collections::HashMap<Vec<u8>, String> = std::collections::HashMap::new();
+  for l in 0..=maxl {
+    let s = base[..l].to_vec();
+    match prop.as_str() {
+      "C01" => {
+        // measurement of length l (aux of another length), and aux of length l (measurement fixed)
+        for (which, m, aux) in [("measurement", s.clone(), Some(base[..(l * 7) % 53].to_vec())),
+                                ("aux", b"m".to_vec(), Some(s.clone())),
+                                ("measurement-noaux", s.clone(), None),
+                                ("epoch", b"m2".to_vec(), Some(vec![1, 2, 3]))] {
+          let e = if which == "epoch" { s.clone() } else { vec![7] };
+          let t = 2 + (l % 2) as u32;
+          let mut cl: Vec<RealClient> = Vec::new();
+          for k in 0..t {
+            let a2 = if k == 0 { aux.clone() } else { aux.clone().map(|mut v| { v.push(k as u8); v }) };
+            if let Some(c) = make_client(ClientCfg { m: m.clone(), e: e.clone(), t, aux: a2, src: "local".into() }, &oprf, &mut rep) {
+              cl.push(c);
+            }
+          }
+          rep.evaluations += 1;
+          let ctx = json!({"dimension": which, "length": l, "threshold": t});
+          let shares: Vec<Share> = cl.iter().filter_map(|c| Share::from_bytes(&c.share_bytes)).collect();
+          match guard(|| share_recover(&shares).map(|c| c.get_message()).map_err(|e| e.to_string())) {
+            Guard::Done(Ok(r0)) => {
+              if !cl.iter().all(|c| opens(&r0, c)) {
+                rep.violation("C01", "Ciphertext::decrypt", &format!("length-sweep:report-does-not-open:{which}"),
+                  format!("{which} of length {l}: a report does not open to its measurement and associated data"), ctx);
+              } else {
+                rep.nontrivial(format!("{which}:{l}"));
+              }
+            }
+            _ => rep.violation("C01", "share_recover", &format!("length-sweep:recovery-failed:{which}"),
+              format!("{which} of length {l}: t distinct reports do not recover"), ctx),
+          }
+        }
+      }
+      "C04" => {
+        // randomness / tag distinct for every length of measurement and of epoch (prefix family)
+        for (which, m, e) in [("measurement", s.clone(), vec![9u8]), ("epoch", vec![9u8], s.clone())] {
+          let mg = sta_rs::MessageGenerator::new(sta_rs::SingleMeasurement::new(&m), 2, &e);
+          let mut rnd = [0u8; 32];
+          mg.sample_local_randomness(&mut rnd);
+          rep.evaluations += 1;
+          let id = format!("{which}:{l}");
+          if let Some(prev) = seen_rnd.insert(rnd.to_vec(), id.clone()) {
+            rep.violation("C04", "sample_local_randomness", "length-sweep:different-triples-same-randomness",
+              format!("triples {prev} and {id} (prefixes of one string) derive the same randomness"), json!({"a": prev, "b": id}));
+          }
+          if let Guard::Done(Ok(w)) = guard(|| mg.share_with_local_randomness()) {
+            if let Some(prev) = seen_tag.insert(w.tag.to_vec(), id.clone()) {
+              rep.violation("C04", "share_with_local_randomness", "length-sweep:different-triples-same-tag",
+                format!("triples {prev} and {id} share a tag"), json!({"a": prev, "b": id}));
+            }
+            let mut kk = w.key.to_vec();
+            kk.push(0xEE);
+            if let Some(prev) = seen_tag.insert(kk, id.clone()) {
+              rep.violation("C04", "share_with_local_randomness", "length-sweep:different-triples-same-key",
+                format!("triples {prev} and {id} share a key"), json!({"a": prev, "b": id}));
+            }
+          }
+          rep.nontrivial(id);
+        }
+      }
+      "C03" => {
+        // two sub-threshold reports whose aux (length l >= 1) differ in the LAST byte only,
+        // for three measurement lengths
+        if l == 0 {
+          continue;
+        }
+        for lm in [0usize, 5, 41] {
+          let m = base[100..100 + lm].to_vec();
+          let mut a1 = s.clone();
+          let mut a2 = s.clone();
+          a1[l - 1] = 0x11;
+          a2[l - 1] = 0x99;
+          let t = 3;
+          let mk = |aux: Vec<u8>, rep: &mut Report| make_client(ClientCfg { m: m.clone(), e: vec![1], t, aux: Some(aux), src: "local".into() }, &oprf, rep);
+          let (c1, c2, c3) = match (mk(a1.clone(), &mut rep), mk(a2.clone(), &mut rep), mk(vec![], &mut rep)) {
+            (Some(a), Some(b), Some(c)) => (a, b, c),
+            _ => continue,
+          };
+          let shares: Vec<Share> = [&c1, &c2, &c3].iter().filter_map(|c| Share::from_bytes(&c.share_bytes)).collect();
+          let r0 = match guard(|| share_recover(&shares).map(|c| c.get_message()).map_err(|e| e.to_string())) {
+            Guard::Done(Ok(x)) => x,
+            _ => continue,
+          };
+          let mut key = vec![0u8; 16];
+          derive_ske_key(&r0, &[1], &mut key);
+          let p1 = sta_rs::Ciphertext::from_bytes(&c1.ct).decrypt(&key, "star_encrypt");
+          let p2 = sta_rs::Ciphertext::from_bytes(&c2.ct).decrypt(&key, "star_encrypt");
+          rep.evaluations += 1;
+          let n = p1.len().min(p2.len());
+          if n == 0 || c1.ct.len() < p1.len() || c2.ct.len() < p2.len() {
+            continue;
+          }
+          // the differing byte is the last payload byte: compare the last min(16, n) bytes
+          let w = 16.min(n);
+          let hmax = (c1.ct.len() - p1.len()).min(c2.ct.len() - p2.len());
+          let mut leak = false;
+          for h in 0..=hmax {
+            if (n - w..n).all(|k| c1.ct[h + k] ^ c2.ct[h + k] == p1[k] ^ p2[k]) && (w >= 8 || (0..n).all(|k| c1.ct[h + k] ^ c2.ct[h + k] == p1[k] ^ p2[k])) {
+              if w >= 8 {
+                leak = true;
+              }
+            }
+          }
+          rep.nontrivial(format!("aux:{l}:{lm}"));
+          if leak {
+            rep.violation("C03", "Ciphertext::new", "length-sweep:keystream-reuse",
+              format!("aux length {l}, measurement length {lm}: two reports differing in their last aux byte share a keystream"),
+              json!({"aux_len": l, "measurement_len": lm}));
+          }
+          if l >= 8 && (contains(&c1.msg_bytes, &a1).is_some() || contains(&c2.msg_bytes, &a2).is_some()) {
+            rep.violation("C03", "Message::to_bytes", "length-sweep:aux-in-clear",
+              format!("aux of length {l} appears in the clear"), json!({"aux_len": l}));
+          }
+        }
+      }
+      _ => {
+        // C16: message / coins of every length, thresholds 1..3, independent invocations combine
+        for (lm, lr) in [(l, (l * 5) % 37), ((l * 3) % 41, l), (l, l), (l, 0), (0, l)] {
+          let t = 1 + (l % 3) as u32;
+          let msg = base[..lm].to_vec();
+          let coins = base[3..3 + lr].to_vec();
+          let sh: Vec<adss::Share> = (0..t).filter_map(|_| Commune::new(t, msg.clone(), coins.clone(), None).share().ok()).collect();
+          rep.evaluations += 1;
+          let ctx = json!({"message_len": lm, "coins_len": lr, "threshold": t});
+          match guard(|| adss::recover(&sh).map(|c| c.get_message()).map_err(|e| e.to_string())) {
+            Guard::Done(Ok(m)) if m == msg => {
+              rep.nontrivial(format!("{lm}:{lr}:{t}"));
+            }
+            _ => rep.violation("C16", "adss::recover", "length-sweep:recovery-failed",
+              format!("message length {lm}, coins length {lr}, threshold {t}: t independently produced shares do not recover the message"), ctx),
+          }
+        }
+      }
+    }
+  }
+  rep.sample(json!({"property": prop, "lengths": format!("0..={maxl}"), "family": "prefixes of one random string"}));
+  rep.traces = 1;
+  rep
+}
